@@ -1,5 +1,7 @@
+import concurrent.futures as _cf
 import os as _os
 import re
+import subprocess as _sp
 
 # (config name, unit) lists are parsed from c08_units.inc so that the spec and the instantiations cannot drift apart
 _HERE = _os.path.dirname(_os.path.abspath(__file__))
@@ -14,7 +16,7 @@ def _units():
             cur = int(m.group(1))
             units[cur] = []
             continue
-        m = re.match(r'C08_INST\("([^"]+)"', line)
+        m = re.match(r'C08_INSTX?\("([^"]+)"', line)
         if m and cur is not None:
             units[cur].append(m.group(1))
     return units
@@ -38,64 +40,168 @@ for k in (0, 5):
                         "tiers": ["thorough"],
                         "configs": {n: {"thorough": 1500} for n in _U[k]}, "chunk": 100})
 
+# Positive compile probes: every column type must be accepted by the representative-cycle code of both flavours, with and
+# without the vine option / the stored barcode / the map container (the run-time units only instantiate a rotation of them).
+_COLUMN_TYPES = ["INTRUSIVE_LIST", "INTRUSIVE_SET", "LIST", "SET", "UNORDERED_SET", "VECTOR", "NAIVE_VECTOR", "SMALL_VECTOR", "HEAP"]
+_PROBE_SRC = r"""
+#include <gudhi/Matrix.h>
+#include <gudhi/persistence_matrix_options.h>
+using namespace Gudhi::persistence_matrix;
+template <Column_types ct, bool ru, bool vine, bool barcode, bool mapc> struct O : Default_options<ct, true> {
+  static const bool is_of_boundary_type = ru; static const bool has_column_pairings = barcode; static const bool has_vine_update = vine;
+  static const bool can_retrieve_representative_cycles = true; static const bool has_map_column_container = mapc;
+  static const bool has_removable_columns = ru || !vine || mapc;
+};
+#define PROBE(ru, vine, barcode, mapc) \
+  template void Matrix<O<Column_types::CT, ru, vine, barcode, mapc>>::update_representative_cycles(); \
+  template const Matrix<O<Column_types::CT, ru, vine, barcode, mapc>>::Cycle& Matrix<O<Column_types::CT, ru, vine, barcode, mapc>>::get_representative_cycle(const Bar&);
+#if VARIANT == 0 || VARIANT == -1
+PROBE(false, true, true, false) PROBE(false, true, true, true)
+#endif
+#if VARIANT == 1 || VARIANT == -1
+PROBE(false, true, false, false) PROBE(false, true, false, true)
+#endif
+#if VARIANT == 2 || VARIANT == -1
+PROBE(false, false, true, false) PROBE(false, false, false, true)
+#endif
+#if VARIANT == 3 || VARIANT == -1
+PROBE(true, true, true, false) PROBE(true, true, false, true) PROBE(true, false, true, true) PROBE(true, false, false, false)
+#endif
+int main() { return 0; }
+"""
+_PROBE_VARIANTS = ["chain,vine,barcode", "chain,vine,no_barcode", "chain,no_vine", "ru"]
+
+
+def _extra(ctx):
+    d = _os.path.join(ctx["build"], "c08_probes")
+    _os.makedirs(d, exist_ok=True)
+    src = _os.path.join(d, "probe.cpp")
+    with open(src, "w") as f:
+        f.write(_PROBE_SRC)
+
+    def one(job):
+        ct, v = job
+        cmd = ["clang++-14", "-std=gnu++17", "-fsyntax-only", "-DNDEBUG", "-DCT=" + ct, "-DVARIANT=%d" % v] + ctx["includes"] + [src]
+        p = _sp.run(cmd, stdout=_sp.PIPE, stderr=_sp.STDOUT)
+        out = p.stdout.decode("utf-8", "replace")
+        m = re.search(r"error: (.*)", out)
+        return ct, v, p.returncode == 0, (m.group(1)[:300] if m else out[-300:])
+
+    # one translation unit per column type with all the groups; the groups one by one only for a column type that fails
+    with _cf.ThreadPoolExecutor(max_workers=9) as ex:
+        first = list(ex.map(one, [(ct, -1) for ct in _COLUMN_TYPES]))
+        failing = [ct for (ct, v, compiled, msg) in first if not compiled]
+        res = list(ex.map(one, [(ct, v) for ct in failing for v in range(len(_PROBE_VARIANTS))]))
+    jobs = [(ct, v) for ct in _COLUMN_TYPES for v in range(len(_PROBE_VARIANTS))]
+    ok = len(jobs) - len(res)
+    for i, (ct, v, compiled, msg) in enumerate(res):
+        if compiled:
+            ok += 1
+            continue
+        ctx["agg"]["viol"].append({"kind": "oracle", "unit": "compile_probe", "config": "compile_probe", "case": i,
+                                   "check": "compile.representative_cycles", "sig": _PROBE_VARIANTS[v] + ",column=" + ct,
+                                   "detail": "a documented option set with can_retrieve_representative_cycles does not compile: " + msg,
+                                   "history": "explicit instantiation of update_representative_cycles / get_representative_cycle, "
+                                              "column type " + ct + ", " + _PROBE_VARIANTS[v]})
+    ctx["info"]["compile_probes"] = {"instantiation_groups": len(jobs), "compiled": ok}
+    ctx["agg"]["counters"]["probe.option_set_groups_compiled"] = ok
+
+
 SPEC = {
     "property": "C08",
-    "rule": "each case grows a filtered cell complex of 6-40 (thorough: 6-52) cells in the harness (classes: random subcomplexes of the full "
-            "simplicial complex on 5-7 vertices; triangulated RP^2 / torus / Klein bottle / coned RP^2; 2-D and 3-D cubical grids; "
-            "'algebraic' chain complexes whose k-cells are glued along random (k-1)-cycles, with coefficients other than +-1 over Z_p), "
-            "p = 2 for the Z_2 instantiations and p in {2,3,5,7,11} for the Z_p ones, cell ids implicit / explicit = position / explicit with "
-            "random gaps; the complex is given to Matrix<Options> (can_retrieve_representative_cycles; RU or chain flavour) by the batch "
-            "constructor or by insert_boundary one cell at a time (sometimes observing in the middle), then 0-3 rounds of "
-            "remove_last x k (k up to 10, sometimes down to the empty matrix) followed by the insertion of up to 12 other cells. "
-            "After every phase: update_representative_cycles (the first observation half of the time relies on the lazy first get), "
-            "get_representative_cycles() and get_representative_cycle(bar) for every bar. Decided by rank computations on the harness's "
+    "rule": "each case grows a filtered cell complex of 6-40 (thorough: 6-52; thorough, 1 Z_2 case in 50: 150-300) cells in the harness (classes: "
+            "random subcomplexes of the full simplicial complex on 5-7 (large: 9-10) vertices; triangulated RP^2 / torus / Klein bottle / coned "
+            "RP^2; 2-D and 3-D cubical grids; 'algebraic' chain complexes whose k-cells are glued along random (k-1)-cycles, with coefficients "
+            "other than +-1 over Z_p), p = 2 for the Z_2 instantiations and p in {2,3,5,7,11,251} (two cases per 500: 46349, 65521) for the Z_p "
+            "ones; over Z_p half of the universe complexes are rescaled cell by cell with random units (coefficients spread over Z_p); cell ids "
+            "implicit / explicit / explicit with random gaps; the complex is given to Matrix<Options> (can_retrieve_representative_cycles; RU or "
+            "chain flavour; default, reserving, batch or comparator constructors) by the batch constructor or by insert_boundary one cell at a "
+            "time (sometimes observing in the middle), then 0-3 rounds of k removals (k up to 10, large complexes up to 40, sometimes down to the "
+            "empty matrix) followed by the insertion of up to 12 (60) other cells. A round removes with remove_last, or - where "
+            "remove_maximal_cell exists (RU + vine; chain + vine + map container + barcode) - half of the time with remove_maximal_cell of "
+            "random maximal cells, 3 out of 4 not the last one (chain: both overloads, the second with the ids of the younger cells). Between "
+            "the phases the matrix is sometimes replaced by a copy, a moved object, an assigned or a swapped scratch matrix (which may hold "
+            "cycles of its own); without a modification in between the cycles are then read without an update. "
+            "After every phase: update_representative_cycles (the first observation half of the time relies on the lazy first get, and then "
+            "half of the time triggers it through get_representative_cycle(bar)), get_representative_cycles() and "
+            "get_representative_cycle(bar) for every bar. Decided by rank computations on the harness's "
             "own boundary matrix (echelon bases of B(K_t) for every t): the list has exactly one cycle per bar of the reference barcode "
             "(oracle/zp_reduce.h; the library's barcode must equal it), no cell repeated, all cells of the bar's dimension, youngest cell "
             "= birth cell, zero boundary, class outside the image of H(K_{birth-1}) in K_{death-1} (K_{n-1} if essential; monotone, so for "
             "every t in [birth, death-1]), inside it in K_death, chain flavour: a boundary of K_death; at every index t the alive "
-            "representatives are independent in H(K_t) and as many as beta(K_t). Z_p, p > 2: the chain is the generator of the cycles "
+            "representatives are independent in H(K_t) and as many as beta(K_t). Z_p, p > 2: in 7 observations of 8 the library's own column "
+            "(RU: get_column(birth, false); chain: get_column(get_column_with_pivot(id))) is read AFTER the cycles as a witness of the "
+            "coefficients: if its support is the returned cycle and it satisfies all of the above as a chain over Z_p, it is the chain of the "
+            "bar; otherwise (and for RU + IDENTIFIER indexing, which offers no U column) the chain is the generator of the cycles "
             "supported in the returned support when that space has dimension 1 (then all of the above over Z_p), else: some cycle in "
             "the support is non-zero on every listed cell and some cycle in the support is born and dies with the bar. "
+            "A python step compiles (syntax only) update_representative_cycles / get_representative_cycle for all 9 column types x "
+            "{chain+vine+barcode, chain+vine without barcode, chain without vine, RU} x container kinds. "
             "non-trivial = distinct history (hash) with >= 12 cells at some observation, >= 3 finite bars and a bar of dimension >= 1",
     "assumptions": [
         "cells are inserted in a valid filtration order, faces listed by increasing id, ids strictly increasing; explicit ids are never mixed with implicit ones",
         "get_representative_cycle(bar) is only called with bars of the current barcode (the library's own Bar objects when the barcode option is on, "
-        "else Bar(birth, death, dim) built from the reference barcode)",
+        "else Bar(birth, death, dim) built from the reference barcode, births and deaths being positions in the current filtration)",
         "the cycles are never read after a modification without update_representative_cycles in between (documented to return the old cycles)",
         "entries of a Cycle are read as ids for the chain flavour and as positions for the RU flavour (what each returns; the documentation only says "
         "'row indices'); they differ only with gapped ids, where the other reading is accepted too if it makes every statement true",
         "the batch constructor is only used for simplicial prefixes with implicit ids (it deduces dimensions from boundary sizes)",
-        "instantiations with the vine option are an extra beyond the option sets of the *_rep tests; no vine swap is performed; gapped ids are not used "
-        "with them and chain + vine is instantiated without remove_last (both are C05/C06 matters: see the report)",
-        "Z_p with p > 2: a Cycle has no coefficients, so the zero-boundary / birth / death statements are decided exactly only when the returned support "
-        "carries a 1-dimensional space of cycles (about 3/4 of the bars); otherwise only necessary conditions",
+        "remove_maximal_cell is only called on cells without cofaces; the only vine swaps are those it performs internally (explicit vine_swap "
+        "calls are C06's business). RU flavour: after such a removal the rows are labelled by the positions (ids = positions are used, gapped ids are not "
+        "used with RU + vine: recorded C06 finding ru_*+gap); RU + IDENTIFIER indexing: a removal of a cell that is not the last one is never followed "
+        "by an insertion (no admissible id exists: the implicit one collides with a living cell, a fresh one differs from its position). Chain flavour "
+        "with vine + removable columns: ids are always explicit (last id + 1, possibly re-using the id of a removed last cell, or with gaps)",
+        "chain + vine without stored barcode (comparator constructors): only remove_last is used, no swap is ever performed, the comparators are never "
+        "called (info.comparator_called would count it); positions are the ranks of the cells in the current filtration",
+        "Z_p with p > 2: a Cycle has no coefficients; the library's column is only a witness (an existence proof): a support differing from the cycle or a "
+        "witness failing a statement is not an alarm, the support is then judged alone (exactly when it carries a 1-dimensional space of cycles, "
+        "otherwise by necessary conditions)",
+        "has_column_and_row_swaps = true (documented as ignored with representative cycles; it does enable the lazy row swap machinery underneath) and "
+        "Index = int are instantiated once per flavour; large complexes (150-300 cells) only over Z_2 and in the thorough tier",
         "the reference barcode (oracle/zp_reduce.h), oracle/z2_linalg.h and harness/c08_rep_cycles/c08_linalg.h are the trusted base",
     ],
     "units": _units_spec,
     "floors": {
-        "quick": {"_distinct_nontrivial": 3500, "obs.complete": 15000, "state.complex_with_nested_reduction_in_a_cycle_column": 5000,
-                  "state.bar_with_nested_sources": 15000, "op.remove_last": 30000, "obs.after.remove_and_reinsert": 5000,
-                  "obs.after.remove_last": 2500, "obs.after.build_batch": 600, "obs.after.second_update": 1400,
-                  "cmp.cycle.semantic.finite": 100000, "cmp.cycle.semantic.essential": 60000, "cmp.basis.index_checked": 300000,
-                  "state.zp.chain_determined": 30000, "cmp.zp.some_chain_represents_bar": 10000, "idmode.2": 300,
-                  "op.lazy_first_get": 2000, "state.empty_matrix": 150, "class.algebraic": 1200, "class.surface": 800},
+        "quick": {"_distinct_nontrivial": 5000, "obs.complete": 22000, "state.complex_with_nested_reduction_in_a_cycle_column": 8000,
+                  "state.bar_with_nested_sources": 25000, "op.remove_last": 38000, "obs.after.remove_and_reinsert": 6500,
+                  "obs.after.remove_last": 3000, "obs.after.build_batch": 850, "obs.after.second_update": 1800,
+                  "cmp.cycle.semantic.finite": 180000, "cmp.cycle.semantic.essential": 90000, "cmp.basis.index_checked": 450000,
+                  "state.zp.chain_from_witness": 50000, "obs.zp.witness_column": 50000,
+                  "state.zp.chain_determined": 15000, "cmp.zp.some_chain_represents_bar": 2000, "idmode.2": 450,
+                  "op.lazy_first_get": 2800, "op.lazy_first_get.through_per_bar_query": 1400,
+                  "state.empty_matrix": 240, "class.algebraic": 1600, "class.surface": 1100, "class.rescaled_by_units": 500,
+                  "op.remove_maximal_cell.not_last": 2300, "op.remove_maximal_cell.with_columns_to_swap": 500,
+                  "op.insert_boundary.after_maximal_removal": 2500, "obs.after_maximal_cell_removal": 700,
+                  "obs.chain_vine_after_removal": 450, "obs.chain_vine_comparators_after_removal": 500, "obs.ru_vine_after_removal": 900,
+                  "op.remove_last.vine": 3000,
+                  "op.transfer.copy_constructor": 1100, "op.transfer.move_constructor": 1100, "op.transfer.assignment": 1100,
+                  "op.transfer.swap": 1100, "obs.after.transfer": 1400, "op.read_without_update_after_transfer": 700,
+                  "p.251": 300, "p.46349": 5, "p.65521": 5, "probe.option_set_groups_compiled": 36},
         "thorough": {"_distinct_nontrivial": 50000, "obs.complete": 200000, "state.complex_with_nested_reduction_in_a_cycle_column": 70000,
                      "op.remove_last": 400000, "cmp.cycle.semantic.finite": 1500000, "cmp.basis.index_checked": 4000000,
-                     "state.zp.chain_determined": 500000},
+                     "state.zp.chain_from_witness": 500000, "state.zp.chain_determined": 150000,
+                     "op.remove_maximal_cell.not_last": 30000, "obs.chain_vine_comparators_after_removal": 5000,
+                     "state.complex_with_ge150_cells": 3000, "op.transfer": 80000, "p.46349": 100, "p.65521": 100,
+                     "probe.option_set_groups_compiled": 36},
     },
     "exhaustive": {"quick": False, "thorough": False},
+    "extra": _extra,
     "manifest": {
-        "text": "Runtime monitor: for 18 (quick) / 42 (thorough) option sets of Matrix<Options> with representative cycles (RU and chain flavours, "
-                "all 9 column types, Z_2 and Z_p, container/position/identifier indexing, with/without barcode, max-dimension access, map "
-                "container, row access, and a few vine-capable sets) thousands of filtered simplicial, cubical, surface and general chain "
-                "complexes are built, truncated with remove_last and re-extended under ASan+UBSan; after every phase every returned "
+        "text": "Runtime monitor: for 24 (quick) / 54 (thorough) option sets of Matrix<Options> with representative cycles (RU and chain flavours, "
+                "all 9 column types, Z_2 and Z_p up to p = 65521, container/position/identifier indexing, with/without barcode, max-dimension access, "
+                "map container, row access, vine-capable sets including the comparator-constructed chain matrix, lazy row swaps, Index = int) "
+                "thousands of filtered simplicial, cubical, surface and general chain "
+                "complexes are built, truncated with remove_last / remove_maximal_cell (cells in the middle of the filtration) and re-extended, "
+                "copied / moved / assigned / swapped between the phases, under ASan+UBSan; after every phase every returned "
                 "representative cycle (whole list and per-bar query) is decided semantically against the harness's own boundary matrix by rank "
                 "computations: right dimension, youngest cell = birth cell, zero boundary, not in the image of earlier homology before the death, "
-                "in it (chain flavour: a boundary) at the death, and the alive representatives form a basis of H(K_t) at every index t. "
+                "in it (chain flavour: a boundary) at the death, and the alive representatives form a basis of H(K_t) at every index t; over Z_p "
+                "with the coefficients of the library's own column as a verified witness. Compile probes cover every column type. "
                 "Held-on-what-was-observed, not a proof.",
-        "note": "trusted: zp_reduce / z2_linalg oracles and the harness's Z_p linear algebra; Z_p (p>2) cycles carry no coefficients, so they are decided "
-                "exactly only when the support determines the chain (else necessary conditions); no vine swaps; preconditions as in 'assumptions'",
-        "technique": "runtime monitoring: randomized build / remove_last / re-insert histories + independent linear-algebra oracle after every phase, "
-                     "under AddressSanitizer/UBSan",
+        "note": "trusted: zp_reduce / z2_linalg oracles and the harness's Z_p linear algebra; Z_p (p>2) cycles carry no coefficients: decided with the "
+                "library's column as a witness checked by the harness (else: exactly only when the support determines the chain, otherwise necessary "
+                "conditions); no explicit vine swaps; preconditions as in 'assumptions'",
+        "technique": "runtime monitoring: randomized build / removal / re-insert / transfer histories + independent linear-algebra oracle after every "
+                     "phase, under AddressSanitizer/UBSan; syntax-only compile probes",
     },
 }
